@@ -5,6 +5,13 @@ A case is one protocol line `st.<op> …`:
   st.containsCoord|inCoord   <shapeA> <routeA> <coord> | <spatial>
   st.containsTime|intersectsTime <shape> <route> <timearg>
   st.dt <shape> <route>          st.indist <shape> <datetime>
+  st.hist <shapeA> <routeA> <shapeB> <routeB|al> | <iAB><cAB><iBA><cBA> | <step> …     observe - mutate - observe
+      histories on live objects A (receiver), B (probe; route `al` = built with A's very TimeInterval object),
+      O (the object a copying mutator was called on).  Steps: X?i X?c X?n X?d X?t:<timearg> X?x:<timearg> observe,
+      X!<mut> mutates in place, X~<mut> calls with inplace=False (O := X, X := the returned copy),
+      X.<k>!<mut> mutates member k of a multi-shape; <mut> = sd:<datetime> | si:<datetime>,<datetime> | sn | st |
+      bf:<µs>.  The answers must be those of freshly built shapes with the current bounds.
+  st.collhist <F|T> <seed>       (support, no model) the same through FeatureCollection / Track entry points
 route   = how the shape got its time bounds: none | d:<datetime> (constructor) | i:<datetime>,<datetime>
           (constructor, TimeInterval) | sd:/si: (set_dt in place) | sdc:/sic: (set_dt(inplace=False), the copy)
           | sn (set_dt(None) on a time-bounded shape)
@@ -27,7 +34,8 @@ THEOREMS = ['GV.ST.' + t for t in (
     'contains_timeless', 'intersects_iff', 'contains_iff', 'intersects_symm', 'contains_imp_intersects',
     'time_none', 'containsTime_at', 'containsTime_ti', 'intersectsTime_at', 'intersectsTime_ti',
     'ctorDt_instant', 'ctorDt_naive_utc', 'ctorDt_same_instant', 'setDt_eq_ctorDt', 'dt_routes_agree',
-    'ctorDt_wf', 'ctorDt_den')]
+    'ctorDt_wf', 'ctorDt_den', 'hist_fresh', 'bufferDt_none', 'bufferDt_ok', 'bufferDt_err', 'bufferDt_zero',
+    'bufferDt_instant_den', 'bufferDt_to_instant', 'applyMuts_wf')]
 
 # "naive datetimes are read as UTC" must not depend on where the process runs: give this process a local
 # time zone that is *not* UTC (POSIX TZ string, no tz database needed), so that code reading a naive
@@ -264,11 +272,294 @@ def spec(line):
     return tf(sp and subset(db, da))
 
 
+# ---- observe - mutate - observe histories ------------------------------------------------------------------------
+# The only time state a shape may have is the *value* of its current bounds: after any sequence of set_dt / buffer_dt /
+# strip_dt calls (in place, or on the copy `inplace=False` returns) every time-aware answer must be the answer of a
+# freshly built shape with those bounds.  Hidden state breaks this: flags cached on a TimeInterval that is then widened
+# in place, TimeInterval objects shared between shapes (aliased constructor argument, copies), copies that keep a
+# reference to the receiver's interval, truthiness slips on timedelta(0).
+
+def _show_tok(ti):
+    return 'none' if ti is None else f'{S.us_of(ti.start)}_{S.us_of(ti.end)}'
+
+
+def _parse_timearg(tok):
+    how, arg = tok.split(':', 1)
+    return mkdt(arg) if how == 'a' else mkti(arg)
+
+
+def _apply_mut(x, mut, inplace, explicit):
+    """one mutator call on the real object; returns what the call returned"""
+    kw = {} if (inplace and not explicit) else {'inplace': inplace}
+    if mut == 'sn':
+        return x.set_dt(None, **kw)
+    if mut == 'st':
+        return x.strip_dt(**kw)
+    how, arg = mut.split(':', 1)
+    if how == 'sd':
+        return x.set_dt(mkdt(arg), **kw)
+    if how == 'si':
+        return x.set_dt(mkti(arg), **kw)
+    if how == 'bf':
+        return x.buffer_dt(timedelta(microseconds=int(arg)), **kw)
+    raise ValueError('bad mutator ' + mut)
+
+
+def impl_hist(line):
+    toks = line.split()
+    ta, ra, tb, rb = toks[1:5]
+    bits = toks[6]
+    steps = toks[8:]
+    for (rel, x, y), bit in zip((('i', ta, tb), ('c', ta, tb), ('i', tb, ta), ('c', tb, ta)), bits):
+        if tf(spatial(rel, x, y)) != bit:
+            return 'STALE-SPATIAL'
+    obj = {'A': build_routed(ta, ra)}
+    obj['B'] = S.build(tb, dt=obj['A'].dt) if rb == 'al' else build_routed(tb, rb)
+    obj['O'] = obj['A']
+    out = []
+
+    def snapshot(x, y):
+        return (_show_tok(x.dt), x.intersects(y), y.intersects(x), x.contains(y), y.contains(x))
+    for n, st in enumerate(steps):
+        name = st[0]
+        x = obj[name]
+        y = obj['A'] if name == 'B' else obj['B']
+        try:
+            if st[1] == '?':
+                q = st[2:]
+                if q == 'd':
+                    out.append(_show_tok(x.dt))
+                elif q == 'i':
+                    out.append(tf(x.intersects(y)))
+                elif q == 'c':
+                    out.append(tf(x.contains(y)))
+                elif q == 'n':
+                    out.append(tf(y in x))
+                elif q[0] == 't':
+                    out.append(tf(x.contains_time(_parse_timearg(q[2:]))))
+                elif q[0] == 'x':
+                    out.append(tf(x.intersects_time(_parse_timearg(q[2:]))))
+                else:
+                    raise ValueError('bad observation ' + st)
+            elif st[1] == '!':
+                r = _apply_mut(x, st[2:], True, n % 2 == 0)
+                out.append('ok' if r is x else 'NOT-SELF')
+            elif st[1] == '~':
+                before = snapshot(x, y)
+                r = _apply_mut(x, st[2:], False, True)
+                if r is x or snapshot(x, y) != before:
+                    out.append('RECEIVER-TOUCHED')
+                else:
+                    out.append('ok')
+                if x is obj['A']:                      # `O` names A itself until a copying call on A succeeded
+                    obj['O'] = x
+                    obj['A'] = r
+                else:
+                    obj[name] = r
+            elif st[1] == '.':
+                k, mut = st[2:].split('!', 1)
+                m = x.geoshapes[int(k)]
+                r = _apply_mut(m, mut, True, n % 2 == 0)
+                out.append('ok' if r is m else 'NOT-SELF')
+            else:
+                raise ValueError('bad step ' + st)
+        except Exception as e:  # noqa - an exception is this step's answer; the history goes on
+            import common
+            out.append(common.err_name(e))
+    return ' '.join(out)
+
+
+def spec_hist(line):
+    """fresh-twin oracle in plain arithmetic: bounds are (start, end) integers, answers by set semantics"""
+    toks = line.split()
+    ra, rb = toks[2], toks[4]
+    iab, cab, iba, cba = (c == 'T' for c in toks[6])
+    steps = toks[8:]
+    st8 = {'A': route_spec(ra)}
+    st8['B'] = st8['A'] if rb == 'al' else route_spec(rb)
+    st8['O'] = None
+    split = [False]          # `O` names A itself until a copying call on A succeeded
+    out = []
+
+    def targ(tok):
+        how, arg = tok.split(':', 1)
+        if how == 'a':
+            return inst_of(arg)
+        u, v = arg.split(',')
+        return (inst_of(u), inst_of(v))
+
+    def mutate(cur, mut):
+        if mut in ('sn', 'st'):
+            return None
+        how, arg = mut.split(':', 1)
+        if how == 'sd':
+            return (inst_of(arg), inst_of(arg))
+        if how == 'si':
+            u, v = arg.split(',')
+            return (inst_of(u), inst_of(v))
+        b = int(arg)
+        if cur is None or cur[1] + b < cur[0] - b:
+            return 'ERR:Value'
+        return (cur[0] - b, cur[1] + b)
+    for st in steps:
+        name = st[0]
+        if name == 'O' and not split[0]:
+            name = 'A'
+        me = st8[name]
+        other = st8['A'] if name == 'B' else st8['B']
+        spi, spc = (iba, cba) if name == 'B' else (iab, cab)
+        if st[1] == '?':
+            q = st[2:]
+            if q == 'd':
+                out.append('none' if me is None else f'{me[0]}_{me[1]}')
+            elif q == 'i':
+                out.append(tf(spi and (me is None or other is None or sets_intersect(me, other))))
+            elif q in ('c', 'n'):
+                out.append(tf(spc and (me is None or other is None or subset(other, me))))
+            else:
+                a = targ(q[2:])
+                if me is None:
+                    out.append('F')
+                elif isinstance(a, int):
+                    out.append(tf(_mem(me, a)))
+                else:
+                    out.append(tf(subset(a, me) if q[0] == 't' else sets_intersect(me, a)))
+        elif st[1] == '.':
+            out.append('ok')
+        else:
+            new = mutate(me, st[2:])
+            if new == 'ERR:Value':
+                out.append(new)
+                continue
+            out.append('ok')
+            if st[1] == '~' and name == 'A':
+                st8['O'] = me
+                split[0] = True
+            st8[name] = new
+    return ' '.join(out)
+
+
+# ---- support stream (no model): histories through the collection entry points ---------------------------------------------
+
+COLL_POOL = ['BB', 'Bs', 'Bm', 'Ps', 'Pm', 'Px', 'PH', 'Ls', 'Ll', 'Ts', 'Tv', 'Tm', 'Cs']
+
+
+def impl_collhist(line):
+    """FeatureCollection / Track: observe (intersects, the three shape filters, filter_by_dt), mutate a member's or the
+    query's time bounds in place (or call the copying form, which must change nothing), observe again.  Expected: what
+    the members' and the query's *current* bounds demand (spatial bit measured on stripped rebuilds)."""
+    import random as _r
+    from geostructures import FeatureCollection, Track
+    _op, kind, seed = line.split()
+    rng = _r.Random(int(seed))
+    T0 = S.BASE_US
+    H = 3_600_000_000
+    t0 = S.templates(0)
+
+    def iv():
+        a = T0 + rng.randrange(0, 12) * H
+        return (a, a + rng.choice([0, 0, 1, 2, 4]) * H)
+
+    def route(w, i):
+        if w is None:
+            return 'none'
+        if w[0] == w[1]:
+            return [f'd:{w[0]}@o0', f'i:{w[0]}@o0,{w[0]}@o0', f'sd:{w[0]}@n'][i % 3]
+        return f'i:{w[0]}@o0,{w[1]}@n'
+    toks, bounds, members = [], [], []
+    for i in range(rng.randint(1, 5)):
+        tok = t0[rng.choice(COLL_POOL)]
+        w = iv() if (kind == 'T' or rng.random() < 0.75) else None
+        toks.append(tok)
+        bounds.append(w)
+        members.append(build_routed(tok, route(w, i)))
+    qtok = t0[rng.choice(COLL_POOL)]
+    qw = iv() if rng.random() < 0.85 else None
+    q = build_routed(qtok, route(qw, rng.randrange(3)))
+    col = (Track if kind == 'T' else FeatureCollection)(list(members))
+    index = {id(m): i for i, m in enumerate(members)}
+
+    def idx(c):
+        return sorted(index.get(id(m), -1) for m in c.geoshapes)
+
+    def temporal_i(a, b):
+        return a is None or b is None or sets_intersect(a, b)
+
+    def observe(tag):
+        n = range(len(members))
+        want = {
+            'filter_by_intersection': [i for i in n if spatial('i', toks[i], qtok) and temporal_i(bounds[i], qw)],
+            'filter_contained_by': [i for i in n if spatial('c', qtok, toks[i]) and (bounds[i] is None or qw is None or subset(bounds[i], qw))],
+            'filter_contains': [i for i in n if spatial('c', toks[i], qtok) and (bounds[i] is None or qw is None or subset(qw, bounds[i]))],
+        }
+        got = {'filter_by_intersection': idx(col.filter_by_intersection(q)), 'filter_contained_by': idx(col.filter_contained_by(q)),
+               'filter_contains': idx(col.filter_contains(q))}
+        # as coded: a time-bounded query only considers the time-bounded members
+        considered = [i for i in n if qw is None or bounds[i] is not None]
+        want['intersects'] = any(spatial('i', toks[i], qtok) and temporal_i(bounds[i], qw) for i in considered)
+        got['intersects'] = col.intersects(q)
+        if qw is not None:
+            want['filter_by_dt(interval)'] = [i for i in n if bounds[i] is not None and sets_intersect(qw, bounds[i])]
+            got['filter_by_dt(interval)'] = idx(col.filter_by_dt(q.dt))
+            want['filter_by_dt(datetime)'] = [i for i in n if bounds[i] == (qw[0], qw[0])]
+            got['filter_by_dt(datetime)'] = idx(col.filter_by_dt(S.utc(qw[0])))
+        for k in want:
+            if want[k] != got[k]:
+                return f'{tag}: {k} gives {got[k]}, current bounds demand {want[k]}'
+        return None
+    bad = observe('initially')
+    if bad:
+        return bad
+    for step in range(rng.randint(1, 3)):
+        who = rng.randrange(-1, len(members))           # -1: the query
+        cur = qw if who < 0 else bounds[who]
+        target = q if who < 0 else members[who]
+        inplace = rng.random() < 0.75
+        r = rng.random()
+        if r < 0.45 and cur is not None:
+            b = rng.choice([0, H, H, 2 * H, -H])
+            if cur[1] + b < cur[0] - b:
+                b = 0
+            new, call, what = (cur[0] - b, cur[1] + b), (lambda o, kw: o.buffer_dt(timedelta(microseconds=b), **kw)), f'buffer_dt({b})'
+        elif r < 0.65:
+            t = T0 + rng.randrange(0, 12) * H
+            new, call, what = (t, t), (lambda o, kw: o.set_dt(S.utc(t), **kw)), 'set_dt(datetime)'
+        elif r < 0.85:
+            w = iv()
+            new, call, what = w, (lambda o, kw: o.set_dt(mkti(f'{w[0]}@o0,{w[1]}@o0'), **kw)), 'set_dt(TimeInterval)'
+        elif kind == 'T' and who >= 0:
+            continue                                    # a Track member always keeps time bounds
+        elif r < 0.93:
+            new, call, what = None, (lambda o, kw: o.strip_dt(**kw)), 'strip_dt'
+        else:
+            new, call, what = None, (lambda o, kw: o.set_dt(None, **kw)), 'set_dt(None)'
+        ret = call(target, {} if (inplace and step % 2) else {'inplace': inplace})
+        if inplace:
+            if ret is not target:
+                return f'{what} in place returned another object'
+            if who < 0:
+                qw = new
+            else:
+                bounds[who] = new
+        elif ret is target:
+            return f'{what}(inplace=False) returned the receiver'
+        bad = observe(f'after {what}{"" if inplace else " (inplace=False: nothing may change)"} on {"the query" if who < 0 else "member %d" % who}')
+        if bad:
+            return bad
+    return 'OK'
+
+
 def impl_for(_line):
+    if _line.startswith('st.collhist'):
+        return impl_collhist
+    if _line.startswith('st.hist'):
+        return impl_hist
     return impl_coll if _line.startswith('st.coll') else impl
 
 
 def spec_for(_line):
+    if _line.startswith('st.hist'):
+        return spec_hist
     return spec_coll if _line.startswith('st.coll') else spec
 
 
@@ -379,6 +670,8 @@ def spec_coll(_line):
 
 def check(run):
     run.prove(MODULE, THEOREMS)
+    run.source_tie(['SrcBase', 'SrcTime'], 'GeoVerif.Props.C05Src',
+                   ['GV.C05Src.' + t for t in ('containsTimeDt_eq', 'containsTimeTI_eq', 'intersectsTimeDt_eq', 'intersectsTimeTI_eq', 'containsCoord_eq', 'containsShape_eq', 'dunderContainsCoord_eq', 'dunderContainsShape_eq', 'intersects_eq', 'src_intersects_eq', 'src_contains_eq', 'src_timeless')])
     rng = run.rng
     tick = 1_000_000
     at = lambda k: S.BASE_US + k * tick  # noqa: E731
@@ -532,7 +825,131 @@ def check(run):
             lines.append(f'st.{op} {A} {rnd_route(rnd_iv())} {B} {rnd_route(rnd_iv())} | {sp}')
     run.run_cases('random-us-tz', lines, impl, spec, tag=tag, nontrivial=nontrivial)
 
-    # ---- 7. the collection override path (support, no model)
+
+    # ---- 7. observe - mutate - observe histories on live objects (model-tied) ----------------------------------------------
+    def hist_line(A, ra, B, rb, steps):
+        bits = [sp_tok('i', A, B), sp_tok('c', A, B), sp_tok('i', B, A), sp_tok('c', B, A)]
+        if None in bits:
+            return None
+        return f'st.hist {A} {ra} {B} {rb} | {"".join(bits)} | ' + ' '.join(steps)
+
+    def D(k):
+        return dt_tok(at(k), rng.choice(REPS))
+    # per receiver kind: pairs where both spatial tests hold, so that the temporal conjunct decides
+    hp = []
+    for ka in S.KINDS:
+        cands = [lst[0] for (k1, _kb, cls, lst) in pairs if k1 == ka and cls == (True, True)]
+        hp += cands[:run.scale(2, 4)]
+    init_a = [lambda: 'none', lambda: f'd:{D(4)}', lambda: f'i:{D(4)},{D(4)}', lambda: f'sd:{D(4)}',
+              lambda: f'i:{D(2)},{D(6)}', lambda: f'si:{D(3)},{D(5)}', lambda: 'sn', lambda: f'sdc:{D(4)}']
+    probes = [lambda: f'd:{D(5)}', lambda: f'i:{D(3)},{D(5)}', lambda: f'i:{D(4)},{D(6)}', lambda: f'd:{D(4)}',
+              lambda: f'i:{D(5)},{D(5)}', lambda: 'none', lambda: 'al', lambda: f'i:{D(3)},{D(4)}']
+    muts = [lambda: f'bf:{tick}', lambda: f'bf:{2 * tick}', lambda: 'bf:0', lambda: f'bf:{-tick}', lambda: f'sd:{D(5)}',
+            lambda: f'sd:{D(4)}', lambda: f'si:{D(5)},{D(5)}', lambda: f'si:{D(3)},{D(6)}', lambda: 'sn', lambda: 'st']
+    warm = [[], ['A?i'], ['A?c'], ['B?i', 'A?n'], [f'A?t:a:{D(4)}'], [f'A?x:t:{D(4)},{D(5)}'], ['A?d', 'B?c']]
+
+    def block():
+        return ['A?d', 'A?i', 'B?i', 'A?c', 'B?c', 'A?n', f'A?t:a:{D(5)}', f'A?x:a:{D(3)}', f'A?t:t:{D(4)},{D(5)}',
+                f'A?x:t:{D(5)},{D(7)}', 'B?d']
+    lines = []
+    h = 0
+    second = run.scale(1, 2)
+    skip = run.scale(9, 2)
+    for ia in range(len(init_a)):
+        for pb in range(len(probes)):
+            for w in range(len(warm)):
+                for m in range(len(muts)):
+                    for mode in '!~':
+                        h += 1
+                        if (h + ia + pb) % skip:
+                            continue
+                        for k in range(second):
+                            A, B = hp[(h + k) % len(hp)]
+                            m2 = muts[(h + 3 * k + m) % len(muts)]()
+                            steps = (list(warm[w]) + [f'A{mode}{muts[m]()}'] + block() +
+                                     [f'{"AB"[(h + k) % 2]}{"!~"[(h // 2 + k) % 2]}{m2}'] + block())
+                            if mode == '~':
+                                steps += ['O?d', 'O?i', 'O?c']
+                            ln = hist_line(A, init_a[ia](), B, probes[pb](), steps)
+                            if ln:
+                                lines.append(ln)
+    # members of a multi-shape: their own bounds never matter, the multi-shape's do
+    for ki, k in enumerate(('MultiGeoPolygon', 'MultiGeoLineString', 'MultiGeoPoint')):
+        for ti, A in enumerate(kt[k]):
+            mem = S.members(A)
+            stamped = [i for i, mtok in enumerate(mem) if '@' in mtok]
+            for pi, (_ka, _kb, _cls, lst) in enumerate([x for x in pairs if x[0] == k and x[2][0]][:run.scale(3, 8)]):
+                B = [b for (a_, b) in lst if a_ == A] or None
+                if not B:
+                    continue
+                steps = ['A?i', 'A?c']
+                for i in stamped:
+                    steps += [f'A.{i}!bf:{tick}', 'A?i', 'A?d']
+                for i in range(len(mem)):
+                    steps += [f'A.{i}!sd:{D(5)}', 'A?i', 'A?c', f'A.{i}!si:{D(1)},{D(2)}', 'A?n', f'A.{i}!sn', 'A?i',
+                              f'A.{i}!sd:{D(4)}', f'A.{i}!bf:{3 * tick}', 'B?i', f'A.{i}!st', 'B?c']
+                steps += [f'A!bf:{tick}'] + block() + [f'A~si:{D(4)},{D(4)}'] + block() + ['O?d', 'O?i', f'O.0!sd:{D(5)}', 'A?i', 'O?i']
+                for ra in (f'd:{D(4)}', f'i:{D(3)},{D(5)}', 'none'):
+                    ln = hist_line(A, ra, B[0], probes[(ki + ti + pi) % len(probes)](), steps)
+                    if ln:
+                        lines.append(ln)
+    # one TimeInterval object handed to two shapes; chains over the copies inplace=False returns
+    for i, (A, B) in enumerate(hp):
+        for ra in (f'i:{D(2)},{D(6)}', f'd:{D(4)}', f'si:{D(4)},{D(4)}'):
+            ln = hist_line(A, ra, B, 'al', ['B?d', 'A?i', 'B?i', f'A!bf:{tick}', 'B?d', 'A?d', 'B?i', 'A?c', f'B!bf:{2 * tick}', 'A?d',
+                                            'B?d', 'A?i', 'B?c', f'A~bf:{tick}', f'A!bf:{tick}', 'O?d', 'A?d', 'B?d', 'O?i', 'A?i',
+                                            f'B~sd:{D(4)}', f'B!bf:{tick}', 'A?d', 'O?d', 'B?d', 'A?n'])
+            if ln:
+                lines.append(ln)
+            ln = hist_line(A, ra, B, probes[i % len(probes)](),
+                           ['A?i', f'A~bf:{tick}', 'A?d', 'O?d', f'A!bf:{tick}', 'O?d', 'O?i', 'O?c', f'O!sd:{D(7)}', 'A?d', 'A?i',
+                            'O?d', 'A~st', 'A?d', 'O?d', 'A?i', 'O!bf:0', 'O?d', f'A!bf:{tick}', 'A~sn', f'A!sd:{D(5)}', 'O?d', 'A?c'])
+            if ln:
+                lines.append(ln)
+
+    def tag_h(ln, a):
+        t = ln.split()
+        first = next((x for x in t[8:] if x[1] in '!~.'), 'A!-')
+        cls = route_spec(t[2])
+        cls = 'none' if cls is None else 'inst' if cls[0] == cls[1] else 'ival'
+        return [f'hist:{cls}:{first[1]}{first[2:].split(":")[0]}:warm={int(t[8][1] == "?")}', f'hist-kind:{S.kind(t[1])}']
+    run.run_cases('observe-mutate-observe', lines, impl_hist, spec_hist, tag=tag_h)
+
+    # random histories
+    lines = []
+    for _ in range(run.scale(150, 3000)):
+        A, B = rng.choice(hp) if rng.random() < 0.7 else rng.choice(flat)
+        names = 'AAAB'
+        steps = []
+        copied = False
+        for _s in range(rng.randint(3, 10)):
+            r = rng.random()
+            x = rng.choice(names + ('O' if copied else ''))
+            if r < 0.5:
+                steps.append(x + '?' + rng.choice(['i', 'c', 'n', 'd', f't:a:{D(rng.randrange(8))}', f'x:a:{D(rng.randrange(8))}',
+                                                    f't:t:{D(3)},{D(rng.randrange(3, 8))}', f'x:t:{D(rng.randrange(4))},{D(rng.randrange(4, 8))}']))
+            else:
+                mode = '~' if (r > 0.85) else '!'
+                lo = rng.randrange(8)
+                mut = rng.choice([f'bf:{rng.choice([0, 1, 2, 3, -1, -2]) * tick}', f'bf:{rng.randrange(-5, 10 ** 7)}', f'sd:{D(lo)}',
+                                  f'si:{D(lo)},{D(rng.randrange(lo, 9))}', f'si:{D(lo)},{D(lo)}', 'sn', 'st'])
+                steps.append(x + mode + mut)
+                copied = copied or (mode == '~' and x == 'A')
+        steps += ['A?d', 'B?d', 'A?i', 'A?c', 'B?i', 'B?c']
+        ra = rng.choice(init_a)()
+        rb = rng.choice(probes)()
+        ln = hist_line(A, ra, B, rb, steps)
+        if ln:
+            lines.append(ln)
+    run.run_cases('random-histories', lines, impl_hist, spec_hist, tag=tag_h)
+
+    # ---- 8. histories through the collection entry points (support, no model)
+    lines = [f'st.collhist {"T" if i % 2 else "F"} {rng.randrange(10 ** 9)}' for i in range(run.scale(160, 2500))]
+    run.run_cases('np-collection-histories', lines, impl_collhist, spec_coll, model=False,
+                  spec_compare=lambda a, sp: a == 'OK',
+                  known_key=lambda ln, a, sp: 'collection-history/' + ln.split()[1])
+
+    # ---- 9. the collection override path (support, no model)
     lines = [f'st.coll {"T" if i % 2 else "F"} {rng.randrange(10 ** 9)}' for i in range(run.scale(300, 6000))]
     run.run_cases('np-collection-intersects', lines, impl_coll, spec_coll, model=False,
                   spec_compare=lambda a, sp: a == 'OK',
@@ -548,8 +965,11 @@ def check(run):
              'touching, nested, overlapping, equal; exhaustive on fixed pairs) x intersects/contains/`in`; every '
              'construction route (datetime / TimeInterval / set_dt in place and copying / set_dt(None)) with '
              'naive, UTC and offset datetimes; coordinate shortcut; contains_time/intersects_time; plus random '
-             'microsecond-resolution cases. A case is one protocol line; non-trivial = both shapes time-bounded or '
-             'the spatial answer is True; distinct by line.',
+             'microsecond-resolution cases; observe-mutate-observe histories on live objects (every time mutator, in '
+             'place and copying, on the shape, on multi-shape members, on shapes sharing one TimeInterval, on '
+             'collection members; instant<->interval<->none transitions, zero and negative buffers) whose answers '
+             'must be those of freshly built shapes. A case is one protocol line; non-trivial = both shapes '
+             'time-bounded or the spatial answer is True (histories always); distinct by line.',
         assumptions=['datetime comparison/arithmetic is exact integer arithmetic on microseconds; aware datetimes compare and hash by UTC instant (CPython)',
                      'the spatial sub-answer is measured on dt-stripped copies of the same shapes (its correctness and time-freeness is C02)',
                      'CPython hash() is a function of value equality'],
